@@ -6,7 +6,7 @@ import dfs_common as D
 def jobs(tier):
     js = D.hxc_jobs(Job)
     # everything already extracted, with all safety checks and no well-formedness precondition on file bytes
-    js += [D.visit_job(Job), D.volume_read_job(Job), D.last_sector_job(Job)] + D.fileio_jobs(Job)[:2] + D.ident_jobs(Job) + D.storage_jobs(Job)
+    js += [D.visit_job(Job), D.volume_read_job(Job), D.last_sector_job(Job)] + D.fileio_jobs(Job) + D.ident_jobs(Job) + D.storage_jobs(Job)
     js += D.c07_extra(Job, tier) if hasattr(D, "c07_extra") else []
     return js
 
